@@ -115,6 +115,7 @@ fn table() -> Vec<Prop> {
     },
     ];
     extra_props(&mut v);
+    serde_props(&mut v);
     v.sort_by_key(|p| p.id);
     v
 }
@@ -152,6 +153,19 @@ fn extra_props(v: &mut Vec<Prop>) {
 }
 #[cfg(not(feature = "likely"))]
 fn extra_props(_v: &mut Vec<Prop>) {}
+
+#[cfg(feature = "serde")]
+fn serde_props(v: &mut Vec<Prop>) {
+    v.push(Prop {
+        id: "C19",
+        run: props::c19::run,
+        replay: props::c19::replay,
+        rule: props::c19::RULE,
+        assumptions: &["serde_json (and serde's in-memory value deserialisers) stand for 'serde'; the parsing oracle for strings is the library's own FromStr, as the property states", "the canonical string comes from the independent canonicaliser of harness/src/model.rs and from Display"],
+    });
+}
+#[cfg(not(feature = "serde"))]
+fn serde_props(_v: &mut Vec<Prop>) {}
 
 fn main() {
     let args: Vec<String> = std::env::args().collect();
